@@ -1,7 +1,7 @@
 (* C07 - Dataset structure survives the DDS: print, parse, print is a fixpoint.
    Statements only; proofs in proofs/DDSProofs.v.  Model: model/DDS.v (printer of responses/dds.py, DDSParser of
    parsers/dds.py over SimpleParser.peek/consume with IGNORECASE and lstrip after every token). *)
-From PydapV Require Import Base Quote QuoteProofs DDS DDSProofs.
+From PydapV Require Import Base Quote QuoteProofs DDS DDSProofs DDSForeign.
 Open Scope nat_scope.
 
 (* wfb t: every variable / container name is non-empty and made of the characters _quote leaves (every pydap name is
@@ -59,6 +59,40 @@ Theorem C07_any_dimension_list : forall pds f R,
   parse_dims f (flat_map render_pd pds ++ ";"%char :: R) = Some (map snd pds, flat_map pd_names pds, ";"%char :: R).
 Proof. exact parse_dims_pd. Qed.
 Print Assumptions C07_any_dimension_list.
+
+(* A DDS written in the style of other servers.  An ftree describes a DDS TEXT: besides the declarations it carries the white space
+   after every token (any run of blanks, tabs, CR, LF - possibly empty where the grammar allows), the spelling of every keyword and
+   type word (any letter case; Url, Int, UInt included) and for every dimension whether it is named or anonymous and how its size
+   is written (leading zeros allowed).  ftext writes the text, fdecl reads off what it declares.  For EVERY such text (any depth,
+   width, rank, layout) the parser returns exactly the declared dataset. *)
+Theorem C07_any_layout : forall kw g1 g2 kids g3 name g4 trailing ks,
+  word kw = true -> spells kw "dataset" = true -> gap g1 = true -> gap g2 = true -> forallb wf_ftree kids = true ->
+  gap g3 = true -> contname_ok name = true -> gap g4 = true ->
+  omapl fdecl kids = Some ks ->
+  parse_dataset (fdataset_text kw g1 g2 kids g3 name g4 trailing) = Some (quote name, ks).
+Proof. exact parse_fdataset. Qed.
+Print Assumptions C07_any_layout.
+
+Definition ex_foreign_kids : list ftree :=
+  [FBase (s2l "url") (s2l "  ") (s2l "u") [] (s2l "  ");
+   FBase (s2l "INT") (s2l " ") (s2l "A")
+         [mkFdim [] None (s2l "3") [] (s2l " "); mkFdim (s2l " ") None (s2l "007") (s2l " ") []] [DDS.nl];
+   FGrid (s2l "GRID") (s2l " ") (s2l " ") (s2l "ARRAY") [] (s2l " ")
+         (FBase (s2l "Float32") (s2l " ") (s2l "g") [mkFdim [] (Some (s2l "x", [], [])) (s2l "2") [] []] (s2l " "))
+         (s2l "MAPS") [] (s2l " ")
+         [FBase (s2l "Float64") (s2l " ") (s2l "x") [mkFdim (s2l " ") (Some (s2l "x", s2l " ", s2l " ")) (s2l "2") (s2l " ") []] (s2l " ")]
+         (s2l " ") (s2l "g") [];
+   FCont true (s2l "sEqUeNcE") [] [] [FBase (s2l "String") (s2l " ") (s2l "s") [] []] [] (s2l "q") []].
+Example C07_ex_any_layout :
+  forallb wf_ftree ex_foreign_kids = true /\
+  l2s (fdataset_text (s2l "dataset") (s2l " ") (s2l " ") ex_foreign_kids (s2l " ") (s2l "my name") [] []) =
+    ("dataset { url  u;  INT A[3] [ 007 ];" ++ String DDS.nl
+     "GRID { ARRAY: Float32 g[x=2]; MAPS: Float64 x[ x = 2 ]; } g;sEqUeNcE{String s;}q;} my name;")%string /\
+  omapl fdecl ex_foreign_kids =
+    Some [TBase String_ (s2l "u") [] []; TBase Int32 (s2l "A") [] [3; 7];
+          TGrid (s2l "g") (TBase Float32 (s2l "g") [s2l "x"] [2]) [TBase Float64 (s2l "x") [s2l "x"] [2]];
+          TSeq (s2l "q") [TBase String_ (s2l "s") [] []]].
+Proof. repeat split; vm_compute; reflexivity. Qed.
 
 (* non-vacuity: a dataset with every kind, quoted names, named / self-named / anonymous dimensions meets the hypotheses *)
 Definition ex_kids : list dtree :=
